@@ -140,8 +140,20 @@ type kitGRPCPlugin struct {
 
 var _ plugin.GRPCPlugin = (*kitGRPCPlugin)(nil)
 
+// kitEarlyAccept: brokered IDs the plugin accepts (and serves ping-pong on) while its gRPC server is being INITIALISED,
+// i.e. before any host has connected, let alone opened the broker stream (GPV_EARLY_ACCEPT=1,2,3)
+func kitEarlyAccept(b *plugin.GRPCBroker) {
+	for _, f := range strings.Split(os.Getenv("GPV_EARLY_ACCEPT"), ",") {
+		var id uint32
+		if _, err := fmt.Sscanf(f, "%d", &id); err == nil && id != 0 {
+			go servePingPong(b, id)
+		}
+	}
+}
+
 func (p *kitGRPCPlugin) GRPCServer(b *plugin.GRPCBroker, s *grpc.Server) error {
 	grpctest.RegisterTestServer(s, &kitGRPCServer{impl: &kitImpl{tag: p.tag}, broker: b})
+	kitEarlyAccept(b)
 	return nil
 }
 
